@@ -76,7 +76,7 @@ type driveResult struct {
 // drive runs one case. runtime.MemStats.TotalAlloc is process-wide: the delta of one attempt also contains whatever the in-process
 // scripted server, the garbage collector's helpers or a goroutine left over from an earlier case allocated meanwhile. The runner
 // is strictly serial (one connection at a time, compressed payloads prepared ahead of time), and a delta above the limit is never
-// trusted on its own: the case is run again, up to three attempts, each after runtime.GC() and a pause that lets stragglers finish,
+// trusted on its own: the case is run again, up to three attempts, the repeats after a pause that lets stragglers finish and a runtime.GC(),
 // and the SMALLEST delta is what the oracle sees - an allocation the client really makes is made on every attempt.
 func drive(o driveOpts) *driveResult {
 	var best *driveResult
@@ -99,8 +99,8 @@ func drive(o driveOpts) *driveResult {
 				oo.ccfg = cc
 			}
 			time.Sleep(50 * time.Millisecond)
+			runtime.GC()
 		}
-		runtime.GC()
 		r := driveOnce(oo)
 		all = append(all, r.alloc)
 		if r.buildErr != nil || r.panicked || r.hung {
